@@ -1,5 +1,5 @@
 //! C06: integral basis (integral_basis/mod.rs, integral_basis/round2.rs) = the maximal order.
-//! `round2::one_step` is private (`mod round2;`): it is exercised through `find_integral_basis` only.
+//! `round2::one_step` is private (`mod round2;`): it is reached through `integral_basis::verif::one_step`.
 use crate::c09::pz;
 use crate::common::*;
 use num::{BigInt, Integer, One, Signed, ToPrimitive, Zero};
@@ -67,7 +67,22 @@ fn do_cli(ctx: &mut Ctx, f: &[BigInt]) {
     }
 }
 
+fn replay_onestep(ctx: &mut Ctx, f: &[BigInt], b: &[Vec<num::BigRational>], p: &BigInt) {
+    let pf = pz(f);
+    let theta = Algebraic::new(pf.clone());
+    let ans = run(|| {
+        let o = rust_number_theory::order::Order::from_basis(b);
+        let (o2, h) = rust_number_theory::integral_basis::verif::one_step(&theta, &o, p);
+        format!("{}|{}", show_ratmat(&o2.basis()), h)
+    });
+    ctx.emit("ib.onestep", &[show_ints(&pf.dat), show_ratmat(b), p.to_string()], ans);
+}
+
 pub fn replay(ctx: &mut Ctx, f: &[&str]) -> bool {
+    if f[0] == "ib.onestep" && f.len() == 4 {
+        replay_onestep(ctx, &parse_ints(f[1]), &parse_ratmat(f[2]), &parse_int(f[3]));
+        return true;
+    }
     match (f[0], f.len()) {
         ("ib.basis", 2) => do_basis(ctx, &parse_ints(f[1])),
         ("ib.any", 2) => do_any(ctx, &parse_ints(f[1])),
@@ -343,8 +358,51 @@ fn random_irreducible(ctx: &mut Ctx, deg: usize) -> Option<P> {
     None
 }
 
+/// `ib.onestep f B p` ⇒ `B'|howmany`: the private Round 2 step through the feature-guarded wrapper,
+/// chained from the starting order for every prime whose square divides its discriminant
+fn do_onestep_chain(ctx: &mut Ctx, f: &[BigInt]) {
+    let pf = pz(f);
+    let theta = Algebraic::new(pf.clone());
+    let start = match std::panic::catch_unwind(std::panic::AssertUnwindSafe(|| {
+        let o = non_monic_initial_order(&theta);
+        let d = o.discriminant(&theta);
+        (o, d)
+    })) {
+        Ok(x) => x,
+        Err(_) => return,
+    };
+    let (mut o, d) = start;
+    if d.is_zero() || d.abs() > BigInt::from(1u64 << 62) {
+        return;
+    }
+    let fac = rust_number_theory::factorize::factorize(&d.abs());
+    for (p, e) in fac {
+        if e < 2 {
+            continue;
+        }
+        for _ in 0..6 {
+            let basis = o.basis();
+            let mut next = None;
+            let ans = run(|| {
+                let (o2, h) = rust_number_theory::integral_basis::verif::one_step(&theta, &o, &p);
+                let s = format!("{}|{}", show_ratmat(&o2.basis()), h);
+                next = Some((o2, h));
+                s
+            });
+            ctx.emit("ib.onestep", &[show_ints(&pf.dat), show_ratmat(&basis), p.to_string()], ans);
+            match next {
+                Some((o2, h)) if h > 0 => o = o2,
+                _ => break,
+            }
+        }
+    }
+}
+
 fn full(ctx: &mut Ctx, f: &[BigInt]) {
     do_basis(ctx, f);
+    if ctx.lines.len() % 3 == 0 {
+        do_onestep_chain(ctx, f);
+    }
 }
 
 pub fn generate(ctx: &mut Ctx) {
